@@ -297,6 +297,8 @@ static void write_stats() {
 
 // ---------------------------------------------------------------- death handling
 static volatile sig_atomic_t g_dying = 0;
+static long g_case_timeout = 0;
+static const char* g_death_msg = "process died (sanitizer report / signal) while running this case";
 static void on_death() {
   if (g_dying) return;
   g_dying = 1;
@@ -309,7 +311,7 @@ static void on_death() {
     return;
   }
   if (g_cur_src && g_cur_case) {
-    write_replay(name, "process died (sanitizer report / signal) while running this case", g_cur_src->log,
+    write_replay(name, g_death_msg, g_cur_src->log,
                  g_cur_case->fields);
     g_st.failures.emplace_back(name, "crash");
     fprintf(stderr, "VERIF-CRASH replay=%s\n", name);
@@ -318,6 +320,19 @@ static void on_death() {
     fprintf(stderr, "VERIF-CRASH outside a case\n");
   }
   write_stats();
+}
+// Per-case watchdog (--case-timeout S, only for harnesses whose cases take microseconds): a case that has not returned after S
+// seconds is saved like a crash ("did not return": self-deadlock, endless loop) and the process ends. The driver still asks for
+// the usual confirmations, each of which has to run into the same limit again.
+static void on_alarm(int) {
+  g_death_msg = "the case did not return within the per-case time limit (self-deadlock or endless loop)";
+  if (g_in_replay) {
+    printf("REPLAY-FAIL %s\n", g_death_msg);
+    fflush(stdout);
+    _exit(1);
+  }
+  on_death();
+  _exit(1);
 }
 static void on_signal(int sig) {
   on_death();
@@ -350,6 +365,7 @@ enum Outcome { PASS, FAIL, SKIP };
 static Outcome run_with(Src& s, Case& c, std::string* msg) {
   g_cur_src = &s;
   g_cur_case = &c;
+  if (g_case_timeout > 0) alarm((unsigned)g_case_timeout);
   Outcome o = PASS;
   try {
     g_def->property(s, c);
@@ -360,6 +376,7 @@ static Outcome run_with(Src& s, Case& c, std::string* msg) {
     if (msg) *msg = k.why;
     o = SKIP;
   }
+  if (g_case_timeout > 0) alarm(0);
   g_cur_src = nullptr;
   g_cur_case = nullptr;
   if (c.counting || !g_last_index_valid) {  // shrink candidates keep the identity of the case being shrunk
@@ -466,6 +483,8 @@ int verif_main(int argc, char** argv, const HarnessDef& def) {
   if (arg_value("fail-dir")) g_fail_dir = arg_value("fail-dir");
   if (arg_value("out")) g_out = arg_value("out");
   bool no_shrink = arg_value("no-shrink") != nullptr;
+  g_case_timeout = arg_long("case-timeout", 0);
+  if (g_case_timeout > 0) signal(SIGALRM, on_alarm);
   if (def.init) def.init();
 
   // ---- replay mode
@@ -492,6 +511,7 @@ int verif_main(int argc, char** argv, const HarnessDef& def) {
         g_cur_src = &rs;
         g_cur_case = &c;
         c.fields = fields;
+        if (g_case_timeout > 0) alarm((unsigned)g_case_timeout);
         try {
           def.direct(fields, c);
         } catch (Fail& f) {
